@@ -158,7 +158,10 @@ func (ms *Modules) resolveIdentities() []error {
 	// from them, and compile them into a "fully resolved" map that means that
 	// we can look them up based on the 'real' prefix of the module and the
 	// name of the identity.
-	for _, mod := range ms.Modules {
+	for _, mod := range ms.loaded() {
+		if mod.Kind() != "module" {
+			continue
+		}
 		for _, i := range mod.Identities() {
 			keyName, r := newResolvedIdentity(mod, i)
 			ms.typeDict.identities.dict[keyName] = *r
